@@ -2,6 +2,7 @@ package checks
 
 import (
 	"fmt"
+	"strings"
 
 	"verifharness/fw"
 	"verifharness/gen"
@@ -67,7 +68,9 @@ func c03Case(c *fw.Case) {
 	patches, acts := c03Patches(r)
 	spec, _ := gen.NewChainCreate(r, code, fw.Pick(r, gen.SigningKeyTypes), patches)
 	aoKind := "none"
-	switch r.Intn(3) {
+	switch r.Intn(4) {
+	case 3:
+		spec.AnchorOrigin, aoKind = fw.Pick(r, []interface{}{float64(1), true, false, []interface{}{"a", "b"}, []interface{}{}, map[string]interface{}{"k": "v"}, float64(r.Intn(50)), "1", "true", "x|y"}), "scalar-or-list"
 	case 1:
 		spec.AnchorOrigin, aoKind = fmt.Sprintf("https://anchor%d.example", r.Intn(100)), "string"
 	case 2:
@@ -209,6 +212,23 @@ func c03Case(c *fw.Case) {
 				ps[i] = gen.PAddAka("did:example:x")
 			}
 		}},
+		{"suffixData.anchorOrigin-retyped-to-its-text-rendering", func(q map[string]interface{}) {
+			// 1 -> "1", true -> "true", ["a","b"] -> "[a b]", {"k":"v"} -> "map[k:v]": another value, hence another DID
+			if ao, ok := sd(q)["anchorOrigin"]; ok {
+				if _, isStr := ao.(string); !isStr {
+					sd(q)["anchorOrigin"] = fmt.Sprint(ao)
+				}
+			}
+		}},
+		{"suffixData.anchorOrigin-type-boundary-moved", func(q map[string]interface{}) {
+			// ("x|y", type "z") vs ("x", type "y|z"): different suffix data
+			if ao, ok := sd(q)["anchorOrigin"].(string); ok && strings.Contains(ao, "|") {
+				t, _ := sd(q)["type"].(string)
+				parts := strings.SplitN(ao, "|", 2)
+				sd(q)["anchorOrigin"] = parts[0]
+				sd(q)["type"] = parts[1] + "|" + t
+			}
+		}},
 		{"delta-and-hash-replaced-consistently", func(q map[string]interface{}) {
 			nd := map[string]interface{}{"updateCommitment": dl(q)["updateCommitment"], "patches": []interface{}{gen.PAddAka("did:example:consistent" + fmt.Sprint(r.Intn(100)))}}
 			q["delta"] = nd
@@ -224,6 +244,10 @@ func c03Case(c *fw.Case) {
 		raw := oracle.MustJCS(q)
 		c.Count("modifications", 1)
 		c.Evals(1)
+		if r.Bool() {
+			// the same parser first sees the modified request in batch mode (where request-time rules are skipped)
+			st.Parser.ParseOperation(ns, raw, true)
+		}
 		op3, err := st.Parser.Parse(ns, raw)
 		verdict := "refused"
 		if err == nil {
